@@ -186,4 +186,30 @@ def simpleBody (toks : List (Nat × String)) : Bool :=
 def simpleCheck (f : String × Bool × List (Nat × String)) : Bool :=
   if f.2.1 then simpleBody f.2.2 else simpleWalk false f.2.2
 
+/-! ### the commit paths of the full server give the locks back after the waiting commit
+
+Model M14 (`Model/Reveal`): a transaction's locks are given back only when nothing of it is pending
+in the journal's memory — unstable WRITEs aside. In fstxn/commit.go: the journal's `CommitWait` is
+called by `commitWait` alone, with the caller's `wait`, BEFORE the calls that release; every
+committing function passes `true`, except `CommitUnstable`; and `CommitUnstable` is called by the
+WRITE handler only. -/
+
+/-- no release before the journal's commit (`c`: the commit has been called) -/
+def releaseAfterCommit : Bool → List (Nat × String) → Bool
+  | _, [] => true
+  | _, (0, _) :: r => releaseAfterCommit true r
+  | c, (1, _) :: r => c && releaseAfterCommit c r
+  | c, _ :: r => releaseAfterCommit c r
+
+def commitPathCheck (f : String × List (Nat × String)) : Bool :=
+  -- a function that calls the journal's commit: it is `commitWait`, it passes its own `wait`, it releases afterwards
+  (if f.2.any (fun t => t.1 = 0) then
+     f.1 = "commitWait" && f.2.all (fun t => t.1 != 0 || t.2 = "wait") && releaseAfterCommit false f.2
+   else true) &&
+  -- whoever goes through `commitWait` waits, except `CommitUnstable`
+  f.2.all (fun t => t.1 != 2 || t.2 = "true" || f.1 = "CommitUnstable")
+
+/-- the only procedure that may commit without waiting -/
+def unstableCommittersAllowed : List String := ["nfs.NFSPROC3_WRITE"]
+
 end GoNfsd.Model.Skeleton
